@@ -142,6 +142,48 @@ func (c *Ctx) ruleDisabled(rule string) {
 						if sc := x.Call.StaticCallee(); sc != nil && sc.Name() == "Required" && len(x.Call.Args) == 1 && isEntry(x.Call.Args[0]) {
 							requiredAsked = true
 						}
+						// a helper of the package that is asked about what the producer offers and reads its Disabled flag,
+						// with the loop branching on the answer
+						if h := core.StaticBody(&x.Call); h != nil && h.Pkg == fn.Pkg && x.Referrers() != nil {
+							branched := false
+							for _, r := range *x.Referrers() {
+								switch y := r.(type) {
+								case *ssa.If:
+									branched = true
+								case *ssa.UnOp:
+									if y.Op == token.NOT && y.Referrers() != nil {
+										for _, r2 := range *y.Referrers() {
+											if _, isIf := r2.(*ssa.If); isIf {
+												branched = true
+											}
+										}
+									}
+								}
+							}
+							if branched {
+								for ai, a := range x.Call.Args {
+									if ai >= len(h.Params) || isEntry(a) || reachedFrom(a, fn.Params[0], 0) {
+										continue
+									}
+									prm := h.Params[ai]
+									for _, hb := range h.Blocks {
+										for _, hin := range hb.Instrs {
+											ld, ok := hin.(*ssa.UnOp)
+											if !ok {
+												continue
+											}
+											fa, ok := ld.X.(*ssa.FieldAddr)
+											if !ok || !isNamedPtr(fa.X.Type(), "PropertySchema") || fieldName(fa.X.Type(), fa.Field) != "Disabled" {
+												continue
+											}
+											if derivedFrom(fa.X, func(v ssa.Value) bool { return v == ssa.Value(prm) }) {
+												flagRead = x
+											}
+										}
+									}
+								}
+							}
+						}
 					case *ssa.Return:
 						if ei := core.ErrorResultIndex(fn.Signature); ei >= 0 && errDefinitelyNonNil(core.RetVal(x, ei), b) {
 							rejects = true
